@@ -276,7 +276,9 @@ def _wrong_variable(repo, rep, rule="R15.1"):
     fb = [r_ for r_ in ast.walk(sn.node) if isinstance(r_, ast.Return)
           and r_.value is not None and "id(" in src(r_.value)]
     rep.check(bool(fb) and all(
-        "repr(%s)" % prm in src(r_.value) and "id(%s)" % prm in src(r_.value)
+        "id(%s)" % prm in src(r_.value) and
+        {x.id for x in ast.walk(r_.value) if isinstance(x, ast.Name)} <=
+        {prm, "repr", "id", "format", "hex"}
         for r_ in fb), rule, sn.qualname, "the fallback name is made of the "
         "value's own representation and identity",
         construct="stable-name-fallback-of-value", where=L.where(sn))
